@@ -30,11 +30,18 @@ def main():
             props = sys.argv[i + 1].split(',')
     meta = json.load(open(os.path.join(d, 'meta.json')))
     props = props or [meta['property']]
+    in_repo = '--in-repo' in sys.argv
     wt = tempfile.mkdtemp(prefix='seedrun-', dir='/tmp')
     os.rmdir(wt)
-    res = {'seed_dir': os.path.relpath(d, VERIF), 'tier': tier, 'checks': {}}
+    res = {'seed_dir': os.path.relpath(d, VERIF), 'tier': tier, 'checks': {},
+           'route': 'git -C /repo apply; ./check; git -C /repo checkout -- .' if in_repo else 'scratch worktree + PYCEL_REPO',
+           'repo_head': sh('git -C /repo rev-parse --short HEAD').stdout.strip()}
     try:
-        assert sh(f'git -C /repo worktree add --detach {wt} HEAD').returncode == 0
+        if in_repo:
+            assert sh('git -C /repo status --porcelain --untracked-files=no').stdout.strip() == '', '/repo not clean'
+            wt = '/repo'
+        else:
+            assert sh(f'git -C /repo worktree add --detach {wt} HEAD').returncode == 0
         env = dict(os.environ, PYTHONPATH=f'{wt}/src')
         demo = os.path.join(d, 'demo.py')
         if os.path.exists(demo):
@@ -52,7 +59,8 @@ def main():
                 p = sh('/venv/bin/python -m pytest -q -p no:cacheprovider tests 2>&1 | tail -2', env=env, cwd=wt)
                 res['tests_with_change'] = p.stdout.strip()[-200:]
             for pid in props:
-                p = sh(f'./check {pid} --tier {tier}', cwd=VERIF, env=dict(os.environ, PYCEL_REPO=wt))
+                cenv = dict(os.environ) if in_repo else dict(os.environ, PYCEL_REPO=wt)
+                p = sh(f'./check {pid} --tier {tier}', cwd=VERIF, env=cenv)
                 out = p.stdout.strip().split('\n')
                 res['checks'][pid] = {
                     'exit': p.returncode,
@@ -75,7 +83,10 @@ def main():
                             pass
                         break
     finally:
-        sh(f'git -C /repo worktree remove --force {wt}')
+        if in_repo:
+            sh('git -C /repo checkout -- .')
+        else:
+            sh(f'git -C /repo worktree remove --force {wt}')
         # regenerate tables from the real /repo so the tree is back to normal
         sh("/venv/bin/python -c 'import sys, fcntl; sys.path.insert(0, \".\"); "
            "l = open(\"lean/.session.lock\", \"w\"); fcntl.flock(l, fcntl.LOCK_EX); "
